@@ -14,7 +14,9 @@
      samples chain down from head to last (succ_level is the previous sample, every sample is in [last, head], strictly
      decreasing, the last one is `last`); each yielded tuple is a sampled gap (level, succ_level] whose end values differ;
      a gap with equal end values contains no change point (convexity lemma).
- The composition in find_state_changes (`reversed(list(...))` + `yield from`) is exercised in the bounded part (C29_R).
+ The composition in find_state_changes (`reversed(list(...))` + `yield from`) is proved for 0..3 sampled gaps with both
+ generators replaced by recorders (h_changes_glue: lowest gap first, each walk started in exactly the pre-state its contract
+ requires, caller's step or a default >= 1) and exercised end to end in the bounded part (C29_R).
 """
 import z3
 from vlib.pyvc import Engine, RaiseEx, Sym, Z, ZB, Unsupported
@@ -24,10 +26,18 @@ G = z3.Function('G', z3.IntSort(), z3.IntSort())
 
 
 class _Get:
+    """the history reader.  With bounds it carries the precondition of the real `get` (a block query): only levels of the searched
+    range exist for the caller, so every read must be inside [lo, hi] (the bounded part enforces the same by raising IndexError)"""
     __pyvc_symbolic__ = True
 
+    def __init__(self, lo=None, hi=None, who=''):
+        self.lo, self.hi, self.who = lo, hi, who
+
     def __pyvc_call__(self, eng, args, kwargs):
-        return Sym(G(Z(args[0])))
+        l = Z(args[0])
+        if self.lo is not None:
+            eng.check(f'{self.who}::get.requires(level in [last, head])', z3.And(self.lo <= l, l <= self.hi))
+        return Sym(G(l))
 
 
 class _Eq:
@@ -77,7 +87,7 @@ def h_find_state_change():
         e._bisect_measure = end - start
         e.closure_contracts[_nested_name(S)] = dict(handler=bisect_contract(pred), inline_depth=1)
         try:
-            r = e.call(S.find_state_change, [Sym(end), Sym(start), _Get(), _Eq(), Sym(pred)])
+            r = e.call(S.find_state_change, [Sym(end), Sym(start), _Get(start, end, 'find_state_change'), _Eq(), Sym(pred)])
         except RaiseEx as ex:
             e.check(f'find_state_change::safety.no_exception[{type(ex.exc).__name__}]', z3.BoolVal(False))
             return
@@ -173,7 +183,7 @@ def h_walk():
             eng.check('walk::exit.no_change_point_left(convexity)', z3.Implies(z3.And(level < m, m <= head), G(m) == G(m - 1)))
         e.invariants[('walk_state_change_interval', 0)] = dict(inv=inv, variant=lambda env: head - Z(env[n_level]), iter_check=iter_check, after=after)
         try:
-            e.call(S.walk_state_change_interval, [Sym(head), Sym(last), _Get(), _Eq()], dict(head_value=Sym(G(head)), last_value=Sym(G(last))))
+            e.call(S.walk_state_change_interval, [Sym(head), Sym(last), _Get(last, head, 'walk'), _Eq()], dict(head_value=Sym(G(head)), last_value=Sym(G(last))))
         except RaiseEx as ex:
             e.check(f'walk_state_change_interval::safety.no_exception[{type(ex.exc).__name__}]', z3.BoolVal(False))
     return h
@@ -219,9 +229,74 @@ def h_intervals():
         e.invariants[('find_state_change_intervals', 0)] = dict(inv=inv, variant=lambda env: Z(env[n_level]) - last + step,
                                                                 iter_check=iter_check, after=after)
         try:
-            e.call(S.find_state_change_intervals, [Sym(head), Sym(last), _Get(), _Eq()], dict(step=Sym(step)))
+            e.call(S.find_state_change_intervals, [Sym(head), Sym(last), _Get(last, head, 'intervals'), _Eq()], dict(step=Sym(step)))
         except RaiseEx as ex:
             e.check(f'find_state_change_intervals::safety.no_exception[{type(ex.exc).__name__}]', z3.BoolVal(False))
+    return h
+
+
+def h_changes_glue(k):
+    """find_state_changes = glue over the two generators (S in the number k of sampled gaps with differing end values):
+    find_state_change_intervals and walk_state_change_interval are replaced by recorders, every tuple component is symbolic.
+    ensures: the intervals generator is asked ONCE with (head, last, get, equals, step) - step as given or, when the caller
+    gives none, a default that is an int >= 1 (the contract of find_state_change_intervals is proved for every step >= 1);
+    the output is the concatenation, LOWEST gap first, of walk(int_head, int_tail, get, equals, head_value=G-value at the
+    top of the gap, last_value=value at its bottom) - exactly the pre-state the contract of walk_state_change_interval
+    requires, with the very values the intervals generator produced (0 / None / '' included: they are opaque here)."""
+    from pytezos.rpc import search as S
+
+    def h(e: Engine):
+        head, last = e.int('head'), e.int('last')
+        given = e.fork(e.bool('step_given').e)
+        step = e.int('step', lo=1)
+        get, eq = _Get(), _Eq()
+        ivs = [tuple(e.int(f'iv{i}.{c}') for c in ('hi', 'hi_value', 'lo', 'lo_value')) for i in range(k)]
+        seen = dict(intervals=0)
+
+        def intervals(eng, args, kwargs):
+            seen['intervals'] += 1
+            a = list(args) + [kwargs[n] for n in ('head', 'last', 'get', 'equals', 'step')[len(args):] if n in kwargs]
+            eng.check('find_state_changes::call.intervals(head, last, get, equals)',
+                      z3.And(z3.BoolVal(len(a) >= 4 and a[2] is get and a[3] is eq), Z(a[0]) == head.e, Z(a[1]) == last.e))
+            if given:
+                eng.check('find_state_changes::call.intervals.step_is_the_callers', z3.BoolVal(len(a) == 5) if len(a) != 5 else Z(a[4]) == step.e)
+            elif len(a) == 5:     # default forwarded explicitly: it must be a usable sampling step
+                d = a[4]
+                eng.check('find_state_changes::default_step.is_int>=1',
+                          z3.BoolVal(isinstance(d, int) and not isinstance(d, bool) and d >= 1))
+            else:                 # nothing forwarded: the default of the intervals generator itself is used
+                import inspect
+                d = inspect.signature(S.find_state_change_intervals).parameters['step'].default
+                eng.check('find_state_changes::default_step.is_int>=1',
+                          z3.BoolVal(isinstance(d, int) and not isinstance(d, bool) and d >= 1))
+            return list(ivs)
+
+        def walk(eng, args, kwargs):
+            names = ('head', 'last', 'get', 'equals', 'head_value', 'last_value')
+            a = dict(zip(names, args))
+            a.update(kwargs)
+            ok = set(a) == set(names) and a['get'] is get and a['equals'] is eq
+            eng.check('find_state_changes::call.walk(get, equals passed through)', z3.BoolVal(ok))
+            return [('walk', a.get('head'), a.get('last'), a.get('head_value'), a.get('last_value'))]
+        e.stub(S.find_state_change_intervals, intervals)
+        e.stub(S.walk_state_change_interval, walk)
+        try:
+            out = e.call(S.find_state_changes, [head, last, get, eq] + ([step] if given else []))
+        except RaiseEx as ex:
+            e.check(f'find_state_changes::safety.no_exception[{type(ex.exc).__name__}]', z3.BoolVal(False))
+            return
+        e.check('find_state_changes::ensures.intervals_generator_consumed_once', z3.BoolVal(seen['intervals'] == 1))
+        out = list(out)
+        e.check(f'find_state_changes[{k} gaps]::ensures.one_walk_per_gap', z3.BoolVal(len(out) == k and all(isinstance(t, tuple) and len(t) == 5 for t in out)))
+        if len(out) != k:
+            return
+        for j, t in enumerate(out):
+            hi, hv, lo, lv = ivs[k - 1 - j]         # lowest gap first = reverse of the order of production
+            try:
+                goal = z3.And(Z(t[1]) == hi.e, Z(t[2]) == lo.e, Z(t[3]) == hv.e, Z(t[4]) == lv.e)
+            except Exception:   # noqa  (a component that is no longer the opaque value, e.g. None)
+                goal = z3.BoolVal(False)
+            e.check(f'find_state_changes[{k} gaps]::ensures.walk#{j}==walk(top, bottom, head_value=value at top, last_value=value at bottom) of gap #{k - 1 - j}', goal)
     return h
 
 
@@ -291,7 +366,11 @@ def run_P(ck):
     eq = lambda a, b: a == b       # noqa
     crosscheck(ck, lambda head, last, pred: S.find_state_change(head, last, g, eq, pred), [(8, 0, 0), (8, 2, 1), (6, 5, 2)], 'find_state_change')
     crosscheck(ck, lambda head, last, step: list(S.find_state_changes(head, last, g, eq, step)), [(8, 0, 1), (8, 0, 3), (8, 0, 60), (7, 2, 2)], 'find_state_changes')
-    for name, mk in (('find_state_change', h_find_state_change), ('walk_state_change_interval', h_walk), ('find_state_change_intervals', h_intervals)):
+    harnesses = [('find_state_change', h_find_state_change, 'P'), ('walk_state_change_interval', h_walk, 'P'),
+                 ('find_state_change_intervals', h_intervals, 'P')]
+    # the glue of find_state_changes for 0..3 sampled gaps, every component (levels AND values) opaque, step given / defaulted
+    harnesses += [(f'find_state_changes[{k} gaps]', (lambda k=k: h_changes_glue(k)), 'S') for k in range(0, 4)]
+    for name, mk, kind in harnesses:
         eng = Engine()
         run_harness(ck, eng, mk(), name)
 
@@ -302,5 +381,5 @@ def run_P(ck):
                 return False, 'no failing history among all histories over ranges <= 7 with <= 3 change points'
             cex.update(found)
             return native(found)
-        report(ck, eng, [('', 'props.C29_P:replay', nat, None)])
+        report(ck, eng, [('', 'props.C29_P:replay', nat, None)], kind=kind)
         functions_interpreted(ck, eng)
